@@ -22,7 +22,7 @@ EXPLANATION += (  # round-3 supplement
     ' P5 the first line is skipped exactly when it starts with `#!`. P6 doubled braces are collapsed only on the f-string path. P7 integer literals are range-checked somewhere between parser and narrowing cast (known finding).'
 )
 EXPLANATION += (
-    ' P8 the string and char literal scanners follow the escape transition table of the grammar for every (state, character class) - evaluated on the closure by the finite-domain evaluator, independent of how the state machine is written.'
+    ' P8 the string and char literal scanners follow the escape transition table of the grammar for every (state, character class) - evaluated on the closure by the finite-domain evaluator, independent of how the state machine is written. P9 doubled braces are only collapsed where they were written literally: on the raw text, or per character with a literal flag - never on the output of the unescaper.'
 )
 ASSUMPTIONS = [
     "the language reference (docs/source/reference/language_reference.md) is the specification of precedence",
@@ -306,37 +306,109 @@ def rule_p5(F):
     return r
 
 
+def _brace_collapse_sites(F):
+    """Where doubled braces are turned into single ones: a `.replace("{{", ..)`, or a function / closure of the parser (not the
+    lexer) that tests characters against both '{' and '}'."""
+    sites = []
+    for b in F.bodies_in(["src/parser/expr.rs", "src/parser/mod.rs"]):
+        if not b.hir or "::tests::" in b.path:
+            continue
+        val = b.hir.get("value") or {}
+        for c in hir.nodes(val, "mcall"):
+            if c["m"] in ("replace", "replacen") and c["args"] and hir.strip(c["args"][0]).get("v") in ("{{", "}}"):
+                sites.append((b, c, "replace"))
+        chars = {n.get("v") for n in hir.walk(val) if n.get("k") in ("lit", "plit") and (n.get("ty") == "char" or n.get("lk") == "char")}
+        if {"{", "}"} <= chars and b.def_kind == "Closure":
+            first = next(n for n in hir.walk(val) if n.get("k") in ("lit", "plit") and n.get("v") == "{")
+            sites.append((b, first, "chars"))
+    return sites
+
+
 def rule_p6(F):
     """`{{` and `}}` are escapes in f-strings only: the code that collapses doubled braces must not be on the path of plain string
     (or char) literals - a shared unescape helper that does it changes the value of every plain string containing `{{`."""
     from ..callgraph import CallGraph
     r = RuleResult("C09.P6", "doubled braces are collapsed only for f-string text, never on the path of plain string literals", floor=1)
-    sites = []
-    for b in F.bodies_in(["src/parser/expr.rs", "src/parser/lexer.rs", "src/parser/mod.rs"]):
-        if not b.hir or "::tests::" in b.path:
-            continue
-        for c in hir.nodes(b.hir.get("value") or {}, "mcall"):
-            if c["m"] in ("replace", "replacen") and c["args"] and hir.strip(c["args"][0]).get("v") in ("{{", "}}"):
-                sites.append((b, c))
+    sites = _brace_collapse_sites(F)
     if not sites:
-        r.missing("the `{{` / `}}` replacement of f-string parts")
+        r.missing("the `{{` / `}}` collapse of f-string parts")
         return r
     cg = CallGraph(F)
     plain = [p for p in F.paths() if p.endswith("::simple_literal") and "parser::expr" in p]
     seen, parent = cg.reachable(plain) if plain else (set(), {})
     done = set()
-    for b, c in sites:
+    for b, c, _kind in sites:
         owner = b.path.split("::{closure")[0]
         if owner in done:
             continue
         done.add(owner)
         on_plain = owner in seen or b.path in seen
-        r.inst("brace collapse in %s" % hir.last(owner), {"fn": owner, "line": c["line"], "reachable_from_simple_literal": on_plain})
+        r.inst("brace collapse in %s" % hir.last(owner), {"fn": owner, "line": c.get("line"), "reachable_from_simple_literal": on_plain})
         if on_plain:
-            r.bad(owner, "brace collapse on the plain-string path", relfile(b.file), c["line"],
+            r.bad(owner, "brace collapse on the plain-string path", relfile(b.file), c.get("line"),
                   "`{{` / `}}` are replaced in %s, which plain string literals also go through (%s): \"{{\" evaluates to \"{\"" % (hir.last(owner), " -> ".join(hir.last(x) for x in cg.chain(parent, owner))))
     if not plain:
         r.missing("parser simple_literal")
+    return r
+
+
+def rule_p9(F):
+    """Only braces that are WRITTEN in the f-string are doubled-brace escapes; a brace that an escape sequence produces (`\\u{7b}`)
+    is just that character.  So the collapse either works on the raw text, before unescaping, or it knows for every character
+    whether it was written literally and only pairs up literal braces."""
+    r = RuleResult("C09.P9", "doubled-brace collapse applies to literally written braces only (not to the output of escape sequences)", floor=1)
+    sites = _brace_collapse_sites(F)
+    if not sites:
+        r.missing("the `{{` / `}}` collapse of f-string parts")
+        return r
+    done = set()
+    for b, c, kind in sites:
+        if (b.path, kind) in done:
+            continue
+        done.add((b.path, kind))
+        ld = hir.LocalDefs(b.hir)
+        if kind == "replace":
+            # the text it is applied to: raw token text, or the result of unescaping?
+            rc = hir.peel_refs(hir.strip(c["recv"]))
+            after_unescape = False
+            for _ in range(8):
+                if rc.get("k") == "mcall" and rc["m"] in ("replace", "replacen", "clone", "to_string", "to_owned", "as_str"):
+                    rc = hir.peel_refs(hir.strip(rc["recv"]))
+                    continue
+                if rc.get("k") == "match" and str(rc.get("src", "")).startswith("TryDesugar"):
+                    rc = hir.peel_refs(hir.strip(hir.strip(rc["e"])["args"][0]))
+                    continue
+                if rc.get("k") == "path" and hir.res_local(rc) is not None:
+                    d = ld.get(hir.res_local(rc))
+                    if d is None or d[1] is None or d[2] != ():
+                        break
+                    rc = hir.peel_refs(hir.strip(d[1]))
+                    continue
+                break
+            name = hir.last(hir.call_def(rc) or "") if rc.get("k") == "call" else (rc.get("m") if rc.get("k") == "mcall" else "")
+            after_unescape = "unescape" in (name or "")
+            r.inst("collapse by replace in %s" % hir.last(b.path), {"fn": b.path, "line": c.get("line"), "applied_to": name or hir.result_desc(rc), "after_unescaping": after_unescape})
+            if after_unescape:
+                r.bad(b.path.split("::{closure")[0], "braces collapsed after unescaping", relfile(b.file), c.get("line"),
+                      "`{{` / `}}` are collapsed in the text that %s returned: a brace produced by an escape sequence is indistinguishable from a written one there, so "
+                      "`f\"\\u{7b}\\u{7b}\"` evaluates to `{` instead of `{{`" % name)
+        else:
+            bools = [p_.get("local") for p_ in b.hir.get("params", []) if p_.get("k") == "bind" and p_.get("ty") == "bool"]
+            uses_flag = False
+            for n, anc in hir.walk_ctx(b.hir["value"]):
+                if n.get("k") == "bin" and n.get("op") == "==" and any(hir.strip(x).get("v") == "{" for x in (n["a"], n["b"])):
+                    tops = [a_ for a_ in anc if a_.get("k") in ("bin", "if", "letstmt")] + [n]
+                    scope = tops[0] if tops else n
+                    for a_ in anc[::-1]:
+                        if a_.get("k") == "bin" and a_.get("op") in ("&&", "||"):
+                            scope = a_
+                        elif a_.get("k") in ("letstmt", "if", "block"):
+                            break
+                    uses_flag = uses_flag or any(x.get("k") == "path" and hir.res_local(x) in bools for x in hir.walk(scope))
+            r.inst("collapse per character in %s" % hir.last(b.path.split("::{closure")[0]), {"fn": b.path, "literal_flag_parameters": len(bools), "brace_test_depends_on_literal_flag": uses_flag})
+            if not uses_flag:
+                r.bad(b.path.split("::{closure")[0], "brace pairing ignores whether the brace was written literally", relfile(b.file), c.get("line"),
+                      "the per-character collapse pairs up braces without asking whether they were written literally or produced by an escape sequence")
     return r
 
 
@@ -667,4 +739,4 @@ def rule_p8(F):
 
 def rules(ctx):
     F = ctx["F"]
-    return [rule_p1(F), rule_p2(F), rule_p3(F), rule_p4(F), rule_p5(F), rule_p6(F), rule_p7(F), rule_p8(F)]
+    return [rule_p1(F), rule_p2(F), rule_p3(F), rule_p4(F), rule_p5(F), rule_p6(F), rule_p7(F), rule_p8(F), rule_p9(F)]
